@@ -43,6 +43,14 @@ def c17_task(n_targets):
     try:
         ports = (s.port(), s.port())
         src = cfg_value(n_targets, "Monorail.src.json", ports)
+        # fields that are rarely set: sequences, per-target ignores, argmap / command directories and definitions,
+        # explicit bind timeouts (the generated file has to carry all of them)
+        src["sequences"] = {"ci": ["build", "test"]}
+        src["server"]["lock"]["bind_timeout_ms"] = 1500
+        src["targets"][0]["ignores"] = ["pkg/t0000/docs"]
+        src["targets"][0]["argmaps"] = {"path": "monorail/argmap", "definitions": {"extra": {"path": "conf/extra.json"}}}
+        if n_targets > 1:
+            src["targets"][1]["commands"] = {"path": "monorail/cmd", "definitions": {"lint": {"path": "tools/lint.sh"}, "build": {}}}
         r = sc.Repo(s, "r", src["targets"], commands={"pkg/t0000": {"build": "x"}}, ports=False)
         os.unlink(r.path("Monorail.json"))
         src_text = json.dumps(src, indent=2)
